@@ -178,7 +178,9 @@ CHECKS = {
        "valid in the region else previous values kept; CFList: type 0 on dynamic plans defines channels J..J+4 (0 removes, out-of-band ignored, others untouched, no panic, plan length invariant), "
        "type 1 on fixed plans replaces the mask, every other combination ignored. Tied to the code by MAC histories over all 256 DLSettings x RxDelay 0..15 x CFList variants x regions after failed "
        "attempts, forged frames, re-joins, compared step by step with state snapshots; an independent python derivation judges keys/address/counters/settings/channel plan and the first uplinks; "
-       "RX1 / RX2 / no arrival driven through async_device and nb_device.",
+       "RX1 / RX2 / no arrival driven through async_device and nb_device. Through the front-end models: C11_async_join_needs_authentic_accept (whatever the radio delivers during "
+       "join() -- timeouts, errors, any frames in RX1 / RX2 / Class C reception, a fault at any call -- without an authentic JoinAccept the device stays exactly in the joining state, is never "
+       "joined and never reports JoinSuccess) and C11_nb_join_needs_authentic_accept (no sequence of radio events / timeouts / send requests without an authentic JoinAccept changes the MAC).",
   note=COMMON_NOTE + "Premise enc(dec b)=b only for C11_session_of_network_accept (a JoinAccept built by the spec network); JoinAccept replay across DevNonces is inherent to LoRaWAN 1.0.x and not judged.",
   tech="machine-checked proof in Coq (join model vs L2 spec: request, acceptance iff authentic, derived session, CFList semantics) + MAC-history correspondence + independent python key-derivation/settings oracle + front-end join runs", ref="6 C11"),
  "C12": dict(
